@@ -23,7 +23,7 @@ from ..lang import Atomic, Constant, Operator, Predicate, Predicated
 from ..models import ValueCPL
 from ..proof import Target, adds, rules, swnode
 from ..proof.helpers import FilterHelper, PredNodes
-from ..tools import group, substitute
+from ..tools import group
 from . import LogicType
 from . import fde as FDE
 
@@ -195,24 +195,25 @@ class Rules(LogicType.Rules):
                     # Identity at one world says nothing about another world.
                     continue
                 s = self.sentence(n)
-                if pa in s.params:
-                    p_old, p_new = pa, pb
-                elif pb in s.params:
-                    p_old, p_new = pb, pa
-                else:
-                    continue
-                # Replace p with p1.
-                params = substitute(s.params, p_old, p_new)
-                # Since we have SelfIdentityClosure, we don't need a = a.
-                if s.predicate == self.predicate and params[0] == params[1]:
-                    continue
-                # Create a node with the substituted param.
-                n_new = swnode(s.predicate(params), w)
-                # Check if it already appears on the branch.
-                if branch.has(n_new):
-                    continue
-                # The rule applies.
-                yield adds(group(n_new), nodes=(node, n))
+                for i, p_old in enumerate(s.params):
+                    if p_old == pa:
+                        p_new = pb
+                    elif p_old == pb:
+                        p_new = pa
+                    else:
+                        continue
+                    # Replace one occurrence at a time.
+                    params = (*s.params[:i], p_new, *s.params[i + 1:])
+                    # Since we have SelfIdentityClosure, we don't need a = a.
+                    if s.predicate == self.predicate and params[0] == params[1]:
+                        continue
+                    # Create a node with the substituted param.
+                    n_new = swnode(s.predicate(params), w)
+                    # Check if it already appears on the branch.
+                    if branch.has(n_new):
+                        continue
+                    # The rule applies.
+                    yield adds(group(n_new), nodes=(node, n))
 
         def example_nodes(self):
             s1 = Predicated.first()
